@@ -115,7 +115,8 @@ Definition md3_label (p : params) (s : state) (nrows : Z) (cols : list Z) (corre
       let drift_level := r_acc (m_ref s) - label_accuracy rows in
       let drift_threshold := p_sens p * r_acc_std (m_ref s) in
       let d := if drift_threshold <? drift_level then DDrift else DNone in
-      let ocols := match rows with r :: _ => l_cols r | [] => [] end in
+      (* oracle_data keeps the reference's column order (labeled_sample[reference_columns], md3.py) *)
+      let ocols := m_feat s ++ m_targ s in
       let s1 := mk_state (m_wait s) rows (m_req s) (m_len s) (m_ref s) (m_ff s) (m_md s)
                          (m_feat s) (m_targ s) d (m_total s) (m_since s) in
       let target := hd 0%Z (m_targ s) in
